@@ -107,6 +107,7 @@ func cliRun(args []string) int {
 		histFile := filepath.Join(cliHome, ".config", "wtf", "search_history.json")
 		ev := &cliEv{Op: "run", Tr: tr, Sc: sc}
 		var argv []string
+		prepop := false
 		var env []string
 		dbPath := ""
 		switch sc.DB {
@@ -204,7 +205,9 @@ func cliRun(args []string) int {
 			case "pipeline":
 				argv = append([]string{"pipeline"}, flags...)
 			case "history":
-				argv = append([]string{"history"}, [][]string{{}, {"--top"}, {"--stats"}, {"--clear"}, {"-l", "3"}}[r.Intn(5)]...)
+				hv := [][]string{{}, {"--top"}, {"--stats"}, {"--clear"}, {"-l", "3"}, {"--limit", "-1"}, {"-l", "-7"}, {"--limit", "0"}, {"--top", "-l", "-2"}}[r.Intn(9)]
+				argv = append([]string{"history"}, hv...)
+				prepop = len(hv) == 0 || hv[0] != "--clear" // the views are shown a history that holds something
 			case "save":
 				argv = []string{"save"}
 			case "savep":
@@ -245,6 +248,16 @@ func cliRun(args []string) int {
 			ev.Argv = append(ev.Argv, fmt.Sprintf("%q", a))
 		}
 		os.Remove(histFile)
+		hist0 := 0
+		if prepop {
+			for _, pq := range []string{"frobnicate widget", "list files", "frobnicate number"} {
+				runWtf([]string{"search", "--database", mix.file, "--", pq})
+			}
+			if b, err := os.ReadFile(histFile); err == nil {
+				qs, _ := histQueries(b)
+				hist0 = len(qs)
+			}
+		}
 		outS, code, err := runWtfColor(argv, sc.Color != "default", env)
 		if err != nil {
 			fatal("cannot run wtf: %v", err)
@@ -261,7 +274,7 @@ func cliRun(args []string) int {
 		// history
 		if b, err := os.ReadFile(histFile); err == nil {
 			qs, _ := histQueries(b)
-			ev.HistDelta = len(qs)
+			ev.HistDelta = len(qs) - hist0
 			if cq, verr := validation.ValidateQuery(strings.Join(argvQuery(argv), " ")); verr == nil && len(qs) > 0 {
 				ev.HistLast = qs[len(qs)-1] == cq
 			}
